@@ -565,3 +565,76 @@ Qed.
 
 Corollary decode_encode_pos : forall p : positive, decode_word (encode (Npos p)) = Some (Npos p).
 Proof. intros p. apply decode_encode. lia. Qed.
+
+(* ------------------------------------------------------------------------------------------ *)
+(** * The code's decoder (least significant first, explicit powers of 5) computes the same partial
+      function as Appendix B's left-to-right decoder — on every string *)
+
+Lemma horner_valid hs l : Forall is_ms hs -> is_ls l -> forall cur,
+  horner (hs ++ [l]) cur = Some (20 * (cur * 5 ^ N.of_nat (length hs) + lo_val (rev hs)) + (l - 64)).
+Proof.
+  intros Hh Hl. induction Hh as [|c hs Hc Hh IH]; intros cur.
+  - cbn [app horner length rev lo_val]. rewrite lsdigit_some by assumption. f_equal.
+    change (N.of_nat 0) with 0. rewrite N.pow_0_r. lia.
+  - cbn [app horner]. unfold is_ms in Hc.
+    rewrite lsdigit_none by (unfold is_ls; lia).
+    rewrite msdigit_some by exact Hc. rewrite IH. f_equal.
+    cbn [length rev]. rewrite Nat2N.inj_succ, N.pow_succ_r'.
+    assert (L : forall a x, Forall is_ms a -> lo_val (a ++ [x]) = lo_val a + (x - 84) * 5 ^ N.of_nat (length a)).
+    { clear. induction a as [|y a IHa]; intros x Ha.
+      - cbn [app lo_val length]. change (N.of_nat 0) with 0. rewrite N.pow_0_r. lia.
+      - inversion Ha; subst. cbn [app lo_val length]. rewrite IHa by assumption.
+        rewrite Nat2N.inj_succ, N.pow_succ_r'. lia. }
+    rewrite L by (apply Forall_rev; assumption). rewrite rev_length. lia.
+Qed.
+
+Lemma horner_some_valid : forall w cur n, horner w cur = Some n -> valid_word w.
+Proof.
+  induction w as [|c r IH]; intros cur n H; [discriminate|].
+  cbn [horner] in H. destruct (lsdigit c) as [a|] eqn:El.
+  - destruct r; [|discriminate]. apply lsdigit_inv in El. exists [], c. repeat split; try constructor; apply El.
+  - destruct (msdigit c) as [d|] eqn:Em; [|discriminate].
+    apply msdigit_inv in Em. destruct (IH _ _ H) as (hs & l & -> & Hh & Hl).
+    exists (c :: hs), l. repeat split; try assumption; try apply Hl. constructor; [apply Em|assumption].
+Qed.
+
+Theorem decode_word_is_appendixB : forall w, decode_word w = appendixB_decode w.
+Proof.
+  intros w. unfold appendixB_decode.
+  destruct (decode_word w) as [n|] eqn:D.
+  - destruct (decode_only_valid _ _ D) as [(hs & l & -> & Hh & Hl) _].
+    rewrite decode_valid_word in D by assumption. rewrite horner_valid by assumption.
+    rewrite <- D. f_equal. lia.
+  - destruct (horner w 0) as [n|] eqn:H; [|reflexivity].
+    destruct (horner_some_valid _ _ _ H) as (hs & l & -> & Hh & Hl).
+    rewrite decode_valid_word in D by assumption. discriminate.
+Qed.
+
+(** whatever Appendix B's stream decoder accepts, the code's loop decodes to the same steps *)
+Definition is_nil {A} (l : list A) : bool := match l with [] => true | _ => false end.
+
+Lemma spec_stream_steps : forall s buf r, Forall is_ms buf ->
+  spec_stream s (lo_val (rev buf)) (negb (is_nil buf)) = Some r -> steps_loop s buf = Some r.
+Proof.
+  induction s as [|c s IH]; intros buf r Hb H.
+  - cbn [spec_stream] in H. destruct buf; cbn in H; [inversion H; reflexivity|discriminate].
+  - cbn [spec_stream steps_loop] in *. destruct (c =? 90) eqn:EZ.
+    + destruct buf as [|b buf]; cbn [is_nil negb] in H; [|discriminate].
+      destruct (spec_stream s 0 false) as [r'|] eqn:E; [|discriminate].
+      rewrite (IH [] r' (Forall_nil _) E). exact H.
+    + destruct (lsdigit c) as [a|] eqn:EL.
+      * apply lsdigit_inv in EL. destruct EL as [Hc ->].
+        rewrite decode_valid_word by assumption.
+        destruct (spec_stream s 0 false) as [r'|] eqn:E; [|discriminate].
+        rewrite (IH [] r' (Forall_nil _) E). cbn [option_map] in *.
+        rewrite <- H. f_equal. f_equal. lia.
+      * destruct (msdigit c) as [d|] eqn:EM; [|discriminate].
+        apply msdigit_inv in EM. destruct EM as [Hc ->].
+        apply IH; [apply Forall_app; split; auto|].
+        rewrite rev_app_distr. cbn [rev app lo_val].
+        replace (negb (is_nil (buf ++ [c]))) with true by (destruct buf; reflexivity).
+        rewrite <- H. f_equal. lia.
+Qed.
+
+Theorem appendixB_stream_agrees : forall s r, appendixB_stream s = Some r -> split_steps s = Some r.
+Proof. intros s r H. apply (spec_stream_steps s [] r (Forall_nil _)). exact H. Qed.
